@@ -160,6 +160,33 @@ pub fn battery(ctx: &mut Ctx, kind: Kind, honest: &[u8], full: bool, pool: &[Vec
         differential(ctx, kind, &b, &how)?;
         ctx.stats.fault("field_element_out_of_range");
     }
+    // a trailing PARTIAL element inside the S chunk (1..23 extra bytes, all enclosing length prefixes
+    // consistent): structurally valid, ignored by design, canonical form drops it
+    if kind != Kind::Sharks && sl >= 24 {
+        for r in [1usize, 4, 12, 23] {
+            let extra: Vec<u8> = if r == 4 {
+                // the crafted case: the 4 extra bytes look like the next length prefix
+                ((honest.len() as u32) & 0xff).to_le_bytes().to_vec()
+            } else {
+                (0..r).map(|i| 0xC0 ^ i as u8).collect()
+            };
+            let mut b = honest[..s0 + sl].to_vec();
+            b.extend_from_slice(&extra);
+            b.extend_from_slice(&honest[s0 + sl..]);
+            // S.len sits 4 bytes before the S chunk; for a report the share chunk's prefix sits
+            // 8 bytes before the threshold field
+            let slen_off = s0 - 4;
+            b[slen_off..slen_off + 4].copy_from_slice(&((sl + r) as u32).to_le_bytes());
+            if kind == Kind::Report {
+                let share_off = s0 - 8; // share chunk starts with threshold(4) | S.len(4)
+                let sh_len_off = share_off - 4;
+                let cur = u32::from_le_bytes([b[sh_len_off], b[sh_len_off + 1], b[sh_len_off + 2], b[sh_len_off + 3]]);
+                b[sh_len_off..sh_len_off + 4].copy_from_slice(&(cur + r as u32).to_le_bytes());
+            }
+            differential(ctx, kind, &b, &format!("partial element of {} bytes appended inside S", r))?;
+            ctx.stats.fault("partial_trailing_element_in_S");
+        }
+    }
     // byte faults: every offset (full, <= 700 bytes) or sampled offsets
     let offs: Vec<usize> = if full && honest.len() <= 700 { (0..honest.len()).collect() } else { (0..24).map(|_| ctx.ch.index(honest.len().max(1))).collect() };
     for o in offs {
